@@ -32,6 +32,18 @@ func runC16(c *Ctx) {
 	// ---- K1: lock pairing on all paths ---------------------------------------
 	locks := c.LockPairing("C16.K1-lock-pairing", pkg, nil)
 	c.Floor("C16.K1-lock-pairing", 4)
+	// the receiver republishes through the senders: a lock leaked there blocks every later Direct before it can see
+	// its context or the receiver's shutdown
+	for _, sub := range []string{"announce/p2psender", "announce/httpsender", "announce/gossiptopic"} {
+		if c.pkg(sub) == nil {
+			continue
+		}
+		before := len(c.obls)
+		c.LockPairing("C16.K1-lock-pairing", sub, nil)
+		if len(c.obls) == before {
+			c.OK("C16.K1-lock-pairing", sub+" › no locks", token.NoPos, "package takes no locks")
+		}
+	}
 	// K1b: nothing waits while the receiver's mutex is held (the watcher and
 	// every Direct/UncacheCid caller need it to make progress)
 	c.NoBlockingWhileHolding("C16.K1b-no-wait-under-mutex", pkg, locks, []string{"announceMutex"})
